@@ -1001,15 +1001,21 @@ class PyGen:
             self.feat('pat_mapping')
             items = []
             for _ in range(cs.choice(4)):
-                j = cs.choice(4)
+                j = cs.choice(6)
                 if j == 0:
                     key = [T(literals.gen_number(cs, imag=False), 'num')]
                 elif j == 1:
                     key = literals.gen_string_concat(cs, self, no_f=True)
                 elif j == 2:
                     key = [self.name(soft_ok=False), tk('.'), self.name()]
-                else:
+                elif j == 3:
                     key = [tk(cs.pick(['None', 'True', 'False']))]
+                elif j == 4:
+                    key = [tk('-'), T(literals.gen_number(cs, imag=False), 'num')]
+                    self.feat('pat_mapping_signed_key')
+                else:
+                    key = ([tk('-')] if cs.bool() else []) + [T(literals.gen_number(cs, imag=False), 'num'), tk(cs.pick(['+', '-'])), T(literals.gen_imag(cs), 'num')]
+                    self.feat('pat_mapping_complex_key')
                 items.append(key + [tk(':')] + self.pattern(depth + 1))
             if cs.bool(60):
                 items.append([tk('**'), T('rest', 'n')])
